@@ -11,6 +11,7 @@ from __future__ import annotations
 
 import ast
 import itertools
+import os
 
 import z3
 
@@ -57,7 +58,9 @@ EXT_CONSTS = {"numpy.pi": _math.pi, "math.pi": _math.pi, "numpy.inf": float("inf
 
 
 class Path:
-    def __init__(self, decisions=(), timeout_ms=4000):
+    def __init__(self, decisions=(), timeout_ms=None):
+        if timeout_ms is None:
+            timeout_ms = int(os.environ.get("VERIF_BRANCH_TIMEOUT_MS", "10000"))
         self.decisions = list(decisions)
         self.ptr = 0
         self.pc = []
